@@ -33,9 +33,16 @@ def run(cmd, cwd, env=None, timeout=1800):
     e.pop('VERIF_REPO', None)
     if env:
         e.update(env)
-    r = subprocess.run(cmd, cwd=cwd, env=e, stdout=subprocess.PIPE, stderr=subprocess.STDOUT,
-                       text=True, timeout=timeout)
-    return r.returncode, r.stdout
+    import signal
+    p = subprocess.Popen(cmd, cwd=cwd, env=e, stdout=subprocess.PIPE, stderr=subprocess.STDOUT,
+                         text=True, start_new_session=True)
+    try:
+        out, _ = p.communicate(timeout=timeout)
+        return p.returncode, out
+    except subprocess.TimeoutExpired:
+        os.killpg(p.pid, signal.SIGKILL)        # the check, its workers and any solver child
+        out, _ = p.communicate()
+        return 124, (out or '') + '\n[timed out after %ds]' % timeout
 
 
 def apply_patch(d, patch):
